@@ -129,6 +129,41 @@ func satisfy(r *vh.Rand, ms []M, ls []KV) []KV {
 	return out
 }
 
+// a route that mixes the deprecated match / match_re keys with 3-7 matchers: lines, the deprecated names sorting
+// before (and after) the new-style ones - the shape a configuration migrated half-way has
+func genCfgRouteMixed(r *vh.Rand, ls []KV) []M {
+	var out []M
+	k := r.Range(3, 7)
+	newNames := []string{"b", "job", "sev", "job", "sev"}
+	for i := 0; i < k; i++ {
+		m := genSemMatcher(r, ls)
+		m.N = []byte(vh.Pick(r, newNames))
+		m.F = "matchers"
+		if m.T == 0 && r.Chance(1, 2) {
+			m.T = vh.Pick(r, []int{1, 3, 2})
+			if m.T >= 2 {
+				m.V = []byte(vh.Pick(r, semPatterns))
+			}
+		}
+		out = append(out, m)
+	}
+	depNames := []string{"a", "a", "b", "zz"}
+	used := map[string]bool{}
+	for i, d := 0, r.Range(1, 2); i < d; i++ {
+		n := vh.Pick(r, depNames)
+		if r.Chance(1, 2) {
+			if !used["eq"+n] {
+				used["eq"+n] = true
+				out = append(out, M{T: 0, N: []byte(n), V: []byte(vh.Pick(r, semValues)), F: "match"})
+			}
+		} else if !used["re"+n] {
+			used["re"+n] = true
+			out = append(out, M{T: 2, N: []byte(n), V: []byte(vh.Pick(r, semPatterns)), F: "match_re"})
+		}
+	}
+	return out
+}
+
 func genCfgCase(r *vh.Rand) Case {
 	c := Case{Kind: "cfg", LS: genLS(r)}
 	k := r.Range(2, 4)
@@ -138,6 +173,9 @@ func genCfgCase(r *vh.Rand) Case {
 	c.RSrc = genCfgSide(r, c.LS, 1)
 	c.RTgt = genCfgSide(r, c.LSS[0], 1)
 	c.Rt = genCfgSide(r, c.LSS[r.Intn(len(c.LSS))], 1)
+	if r.Chance(1, 2) {
+		c.Rt = genCfgRouteMixed(r, c.LSS[r.Intn(len(c.LSS))])
+	}
 	if !r.Chance(1, 5) {
 		c.LS = satisfy(r, c.RSrc, c.LS)
 	}
@@ -318,14 +356,50 @@ func runCfg(t *testing.T, run *vh.Run, c *Case) {
 	rule := inhibit.NewInhibitRule(cfg.InhibitRules[0])
 	record("S.src", "inhibit rule source side on the source alert", []bool{rule.SourceMatchers.Matches(sls)}, []bool{sideHolds(c.RSrc, sls)})
 	record("T.src", "inhibit rule target side on the source alert", []bool{rule.TargetMatchers.Matches(sls)}, []bool{sideHolds(c.RTgt, sls)})
-	var gS, wS, gT, wT, gM, wM, gR, wR []bool
+	var gS, wS, gT, wT, gM, wM, gR, wR, gR2, gR3 []bool
 	// the real inhibitor with the source alert firing
 	now := time.Now()
 	src := &types.Alert{Alert: model.Alert{Labels: sls, StartsAt: now.Add(-time.Minute), EndsAt: now.Add(time.Hour)}, UpdatedAt: now}
 	ih := inhibit.NewInhibitor(&slurpAlerts{initial: []*types.Alert{src}}, cfg.InhibitRules, promslog.NewNopLogger(), eventrecorder.NopRecorder())
 	go ih.Run()
 	ih.WaitForLoading()
+	// the running server builds the route tree more than once from the same loaded configuration (dispatcher, API):
+	// every build must carry the written matchers, and building must not change the loaded configuration
+	multiset := func(ms labels.Matchers) string {
+		var l []string
+		for _, m := range ms {
+			l = append(l, fmt.Sprintf("%d %q %q", m.Type, m.Name, m.Value))
+		}
+		sort.Strings(l)
+		return strings.Join(l, " | ")
+	}
+	var wantRoute []string
+	nLines, nDep := 0, 0
+	for _, m := range c.Rt {
+		v := string(m.V)
+		if m.F == "match_re" {
+			v = "^(?:" + v + ")$" // the deprecated map hands NewMatcher the already anchored expression
+			nDep++
+		} else if m.F == "match" {
+			nDep++
+		} else {
+			nLines++
+		}
+		wantRoute = append(wantRoute, fmt.Sprintf("%d %q %q", m.T, m.N, v))
+	}
+	sort.Strings(wantRoute)
+	run.Count("config_route_shape", fmt.Sprintf("%d matchers lines + %d deprecated entries", nLines, nDep))
+	loadedBefore := multiset(labels.Matchers(cfg.Route.Routes[0].Matchers))
 	root := dispatch.NewRoute(cfg.Route, nil)
+	builds := []*dispatch.Route{root, dispatch.NewRoute(cfg.Route, nil), dispatch.NewRoute(cfg.Route, nil)}
+	for i, b := range builds {
+		if got := multiset(b.Routes[0].Matchers); got != strings.Join(wantRoute, " | ") {
+			run.Violate(fmt.Sprintf("route-build-%d-matchers-differ", i+1), fmt.Sprintf("build %d of dispatch.NewRoute from the same loaded configuration: child route has %s, written %s\n%s", i+1, got, strings.Join(wantRoute, " | "), text), c)
+		}
+	}
+	if after := multiset(labels.Matchers(cfg.Route.Routes[0].Matchers)); after != loadedBefore {
+		run.Violate("route-build-changes-loaded-config", fmt.Sprintf("building the route tree changed the loaded matchers of the child route: before %s, after %s\n%s", loadedBefore, after, text), c)
+	}
 	sSrc, tSrc := sideHolds(c.RSrc, sls), sideHolds(c.RTgt, sls)
 	for _, ls := range lss {
 		s, tg := sideHolds(c.RSrc, ls), sideHolds(c.RTgt, ls)
@@ -334,6 +408,9 @@ func runCfg(t *testing.T, run *vh.Run, c *Case) {
 		gM, wM = append(gM, ih.Mutes(context.Background(), ls)), append(wM, tg && sSrc && !(s && tSrc))
 		routes := root.Match(ls)
 		gR, wR = append(gR, len(routes) == 1 && routes[0].RouteOpts.Receiver == "child"), append(wR, sideHolds(c.Rt, ls))
+		r2, r3 := builds[1].Match(ls), builds[2].Match(ls)
+		gR2 = append(gR2, len(r2) == 1 && r2[0].RouteOpts.Receiver == "child")
+		gR3 = append(gR3, len(r3) == 1 && r3[0].RouteOpts.Receiver == "child")
 		switch {
 		case tg && sSrc && !(s && tSrc):
 			run.Count("config_inhibitor", "muted: target side holds, the source fires")
@@ -355,6 +432,8 @@ func runCfg(t *testing.T, run *vh.Run, c *Case) {
 	record("T.tgt", "inhibit rule target side on the targets", gT, wT)
 	record("mutes", "Inhibitor.Mutes of the targets", gM, wM)
 	record("route", "child route written with match/match_re/matchers", gR, wR)
+	record("route2", "child route, second build from the same configuration", gR2, wR)
+	record("route3", "child route, third build from the same configuration", gR3, wR)
 
 	all := append(append(append([]M{}, c.RSrc...), c.RTgt...), c.Rt...)
 	allLS := model.LabelSet{}
